@@ -324,7 +324,9 @@ impl<'a, R: 'a + InnerReaderTrait> LayerReader<'a, R> for CompressionLayerReader
                 let len = u64::from(inner.read_u32::<LittleEndian>()?);
 
                 // Read SizesInfo
-                inner.seek(SeekFrom::Start(pos - len))?;
+                // (the length comes from the archive: it may be larger than what precedes it)
+                let start = pos.checked_sub(len).ok_or(Error::DeserializationError)?;
+                inner.seek(SeekFrom::Start(start))?;
                 self.sizes_info = match bincode::options()
                     .with_limit(BINCODE_MAX_DESERIALIZE)
                     .with_fixint_encoding()
